@@ -204,10 +204,18 @@ package file
 //@   trusted
 //@   effect $AllWritten := err == nil
 
-//@ func writeODS
-//@   property C07
-//@   trusted
+// (call-site view of writeODS: nil means every share up to the first tail-padding share went to the writer.
+// Body view: cells of the original quadrant are taken row by row, column by column - cell (i, j) in its
+// turn - each is handed to the writer as it is, a write error ends the function with that error, and the
+// only early success is the first tail-padding share.)
+//@ extern github.com/celestiaorg/celestia-node/store/file.writeODS
 //@   effect $AllWritten := err == nil
+//@ func writeODS
+//@   property C07 C05
+//@   noframe
+//@   callpre ).GetCell: $arg1 == i && $arg2 == j
+//@   callpre Writer).Write: $arg1 == shr
+//@   callpre share.NewNamespaceFromBytes: $arg0 == shr[:29]
 
 //@ func writeQ4File
 //@   property C07
@@ -231,10 +239,18 @@ package file
 //@   trusted
 //@   effect $HdrWritten := err == nil
 
-//@ func writeAxisRoots
-//@   property C07
-//@   trusted
+// (call-site view of writeAxisRoots; body view: all row roots in order, then all column roots in order)
+//@ extern github.com/celestiaorg/celestia-node/store/file.writeAxisRoots
 //@   effect $RootsWritten := err == nil
+//@ func writeAxisRoots
+//@   property C07 C05
+//@   noframe
+//@   requires roots != nil
+//@   callpre Writer).Write: $arg1 == root || $arg1 == root#2
+//@   loop 1: invariant -1 <= rangeindex && rangeindex < len(roots.RowRoots)
+//@   loop 1: hint root == roots.RowRoots[rangeindex]
+//@   loop 2: invariant -1 <= rangeindex#2 && rangeindex#2 < len(roots.ColumnRoots)
+//@   loop 2: hint root#2 == roots.ColumnRoots[rangeindex#2]
 
 // header, then roots, then shares, then the flush: the layout the readers and the size validator expect
 //@ func writeODSFile
